@@ -72,6 +72,7 @@ type FuncContract struct {
 	Asserts     []*AssertSpec
 	GhostUpd    []*GhostUpdate
 	Dispatch    map[string][]string // function-typed variable -> candidate named functions
+	CountedPure map[string]bool     // `callback pure NAME counted`
 	Iter        *IterSpec
 	Inline      bool // callee body is inlined at call sites instead of using a contract
 	NoBody      bool // do not verify body even though not trusted (never set silently)
@@ -404,11 +405,18 @@ func (c *Contracts) ParseText(path string, text string, pkgPath string) error {
 			}
 		case "callback":
 			// callback pure NAME
+			// callback pure NAME counted: calls through it are ALSO recorded in ghost.cbCalls / cbArgN
 			f := strings.Fields(rest)
-			if cur == nil || len(f) != 2 || f[0] != "pure" {
-				return fail(l, "callback pure NAME expected inside a func contract")
+			if cur == nil || len(f) < 2 || len(f) > 3 || f[0] != "pure" || (len(f) == 3 && f[2] != "counted") {
+				return fail(l, "callback pure NAME [counted] expected inside a func contract")
 			}
 			cur.PureCallbacks = append(cur.PureCallbacks, f[1])
+			if len(f) == 3 {
+				if cur.CountedPure == nil {
+					cur.CountedPure = map[string]bool{}
+				}
+				cur.CountedPure[f[1]] = true
+			}
 		case "dispatch":
 			// dispatch VAR over f1, f2, ...: calls through the function-typed variable VAR are resolved
 			// case by case over the named functions (a last case covers "none of them")
